@@ -2,13 +2,18 @@ from runner import Property, Engine
 import histgen
 
 WRAPS = ["ares_tvnow", "ares_rand_bytes", "ares_generate_new_id",
-         "ares_htable_hash_FNV1a", "ares_htable_hash_FNV1a_casecmp"]
+         "ares_htable_hash_FNV1a", "ares_htable_hash_FNV1a_casecmp",
+         # harness/chan01_trace.c: decision points of the lifecycle code (LC events, lctrace=1)
+         "ares_qcache_fetch", "ares_dns_record_duplicate_ex", "ares_dns_record_query_set_name",
+         "ares_open_connection", "ares_cookie_apply", "ares_conn_flush", "ares_cookie_validate",
+         "ares_close_connection", "ares_metrics_record", "ares_parse_into_addrinfo",
+         "ares_parse_ptr_reply_dnsrec", "ares_check_cleanup_conns"]
 
 PROP = Property(
     pid="C01",
     properties_v="Properties/Properties_C01.v",
     coq_targets=["Extract/Extract_Lifecycle.vo"],
-    engines=[Engine(name="chan01", c_srcs=["harness/sim.c", "harness/chan_drv.c"],
+    engines=[Engine(name="chan01", c_srcs=["harness/sim.c", "harness/chan_drv.c", "harness/chan01_trace.c"],
                     ml_srcs=["ocaml/gen/LifecycleModel.ml", "ocaml/chan01_drv.ml"], ml_packages=["str"],
                     wraps=WRAPS, gen=histgen.gen, n_quick=3000, n_thorough=100000, timeout=3000)],
     trusted_base=["Coq 8.16.1 kernel + coqc (vm_compute; no native_compute)",
